@@ -1,15 +1,16 @@
 ---------------------------- MODULE CondInclMC ----------------------------
-(* Model-checking wrapper: bounds, and the dump of every closed program with
+(* Model-checking wrapper: bounds, and the dump of every complete program with
    the reference result the spec carries (replayed into parse_file by vf). *)
 EXTENDS CondIncl, Json, CSV, IOUtils
+
+CONSTANT MinDump     \* dump closed programs of at least this length (= MaxLen for exhaustive runs:
+                     \* every shorter closed program is a prefix of a dumped one)
 
 Code(l) == IF l.k \in CondKinds THEN l.k \o ":" \o l.c ELSE l.k
 
 DumpFile == IF "VERIF_DUMP" \in DOMAIN IOEnv THEN IOEnv.VERIF_DUMP ELSE ""
 
-\* A complete behaviour = a closed program.  Only programs that contain at least one
-\* conditional and one observable line are worth replaying.
-Interesting == depth = 0 /\ Len(prog) >= 2 /\ \E i \in 1..Len(prog) : prog[i].k = "endif"
+Interesting == depth = 0 /\ Len(prog) >= MinDump /\ \E i \in 1..Len(prog) : prog[i].k = "endif"
 
 DumpConstraint ==
   IF DumpFile # "" /\ Interesting
